@@ -311,6 +311,7 @@ func enumerate(maxLen int) []caseT {
 func main() {
 	core.ParseFlags()
 	node.Quiet()
+	node.DropEngineGoroutines() // see mc/node/tasks.go
 	maxLen := 2
 	if core.Thorough() {
 		maxLen = 3
